@@ -19,7 +19,7 @@ PROP = dict(
          "compiler+VM under step budgets {1000},{1},{2,3,7},{100}; output + final value (Runtime::top for int/bool/"
          "string) + error kind compared with Abra.Sem on the generator's own AST; every F0 program additionally: real "
          "unoptimised <main> instruction stream (optimizer-trace hook) vs compileF0, modulo label names and slot "
-         "numbering; main stream is DepthSafe and avoids the shapes of defects being fixed (D36-D41, probed at start, "
+         "numbering; main stream is DepthSafe and includes the shapes of the repaired defects D36-D41 as long as their start-up probes pass ("
          "hist keys shape:*); D21 witnesses replayed; non-trivial = program with output, an error, or a jump in its code",
     nontrivial=lambda req, imp: (req.startswith("sem") and (imp.startswith("error") or not imp.endswith(" -")))
                                 or (req.startswith("cgen") and "jump" in imp),
